@@ -1,5 +1,6 @@
 import SdcModel.ContextAssoc
 import SdcModel.Proofs.ContextAssoc
+import SdcModel.Generated.ContextLocks
 /-!
 # C10 — context association invariants hold after any sequence of context changes
 Property theorems only. Model: `SdcModel/ContextAssoc.lean` (`set_location` and the SetContextState handler of the example
@@ -8,6 +9,14 @@ role providers, as repaired by the `fix:` commits listed in `known_findings/C10.
 `setLocation` / `setContextState` operations; `WF env st` is the well-formedness of the start table (unique handles
 below the uuid supply and different from descriptor handles, at most one associated state per descriptor, an
 associated state has no unbinding version).
+
+The version an operation writes into Binding/UnbindingMdibVersion is `st.ver + 1` of the state it commits on: the model
+reads the version and commits in one `step`.  On the real code this atomicity is what `context_state_transaction()`
+(`_transaction_manager`: `with self._tr_lock, self.mdib_lock`, `new_mdib_version` computed when the transaction object is
+created inside it) provides.  It is tied to the source in two ways: `version_reads_inside_transaction` below (generated
+from a dynamic trace on every run) and the schedule scenario of the harness (another transaction is open when the
+operation starts and commits first, `Op.otherCommit` in the model), whose oracle compares the versions in the states
+with the MdibVersion of the operation's own EpisodicContextReport.
 -/
 namespace Sdc.C10
 open Sdc.Mdib Sdc.ContextAssoc
@@ -27,7 +36,9 @@ theorem ctx_handles_unique {env : Env} {st : St} (hwf : WF env st) (ops : List O
   ⟨(wf_run hwf ops).nodup, (wf_run hwf ops).not_descr⟩
 
 /-- a state that was associated before an operation still exists after it, and if it is no longer associated it is
-`Dis`, its unbinding version is the MdibVersion of that commit (the old version + 1) and its end time is set -/
+`Dis`, its unbinding version is the MdibVersion of that commit (the old version + 1) and its end time is set.
+(`ops` may contain `otherCommit`s; "old version" is the version at the moment the operation owns the transaction lock,
+see the header and `version_reads_inside_transaction`.) -/
 theorem unbind_marked {env : Env} {st : St} (hwf : WF env st) (ops : List Op) (op : Op) (a : CState)
     (ha : a ∈ (run env st ops).tab) (haa : a.assoc = .assoc) :
     ∃ b ∈ (step env (run env st ops) op).1.tab, b.h = a.h ∧
@@ -59,6 +70,12 @@ theorem bind_marked {env : Env} {st : St} (hwf : WF env st) (ops : List Op) (op 
   · rw [ht] at hb
     exact absurd hba (hnew b hb rfl)
   · exact ⟨hv, hm⟩
+
+/-- every read of `mdib.mdib_version` made by the thread of a context operation (SetContextState handler, set_location;
+traced scenarios regenerated on every run into `Generated/ContextLocks.lean`) happens while that thread holds the
+transaction lock: the hypothesis "version read and commit are one atomic step" of the model -/
+theorem version_reads_inside_transaction :
+    ∀ r ∈ Generated.ContextLocks.versionReads, r.2.2 = 0 := by decide
 
 /-- the MdibVersion moves by at most one per operation, and not at all when the table is unchanged -/
 theorem version_step {env : Env} {st : St} (hwf : WF env st) (ops : List Op) (op : Op) :
@@ -164,6 +181,14 @@ example : ((run env0 st0 ops0).tab.map fun s => (s.h, s.assoc, s.bindV, s.unbind
      (1001, .dis, some 7, some 8)] := by decide
 
 example : (run env0 st0 ops0).ver = 8 := by decide
+
+/-- the trace is not empty and every scenario did read the version under the lock -/
+example : Generated.ContextLocks.versionReads ≠ [] ∧ ∀ r ∈ Generated.ContextLocks.versionReads, 0 < r.2.1 := by decide
+
+/-- the theorems cover interleaved commits of other transactions: the versions follow the operation's own commit -/
+example : ((run env0 st0 [.otherCommit, .setContextState [prop 1 1 .assoc], .otherCommit]).tab.map
+    fun s => (s.h, s.bindV, s.unbindV)) = [(100, some 3, some 7), (101, some 1, some 3), (1000, some 7, none)] ∧
+    (run env0 st0 [.otherCommit, .setContextState [prop 1 1 .assoc], .otherCommit]).ver = 8 := by decide
 
 /-- `unbind_marked` is not vacuous: state 100 is associated, the second operation disassociates it -/
 example : ∃ a ∈ (run env0 st0 (ops0.take 1)).tab, a.assoc = .assoc ∧
